@@ -4,7 +4,7 @@ import json
 import subsys, vlib
 
 C = dict(Props={"p1", "p2"}, Voters={"v1", "v2"}, MaxH=5, Deviations=set())
-PROPS = ["PropForwardOnly", "PropExpireAfterDeadline", "PropOutcomeFollowsVotes"]
+PROPS = ["PropForwardOnly", "PropExpireAfterDeadline", "PropOutcomeFollowsVotes", "PropExpiredOnlyIfUndecided"]
 MC = ("governance", "GSpec", C, ["InvAppliedOnce", "InvDecidedAsVotesSay"], PROPS, None, None)
 TRACE = dict(Props=set(), Voters=set(), MaxH=0, Deviations=set())
 SEEN = {}
